@@ -121,9 +121,9 @@ def cell_ref(kind, p, carry, x):
     n = np.tanh(d('in', x) + r * d('hn', h))
     h2 = (1.0 - z) * n + z * h
     return h2, h2
-  if kind == 'simple':
+  if kind in ('simple', 'simple_res'):
     h = carry
-    h2 = np.tanh(d('i', x) + d('h', h))
+    h2 = np.tanh(d('i', x) + d('h', h) + (h if kind == 'simple_res' else 0.0))
     return h2, h2
   if kind == 'mgu':
     h = carry
@@ -134,13 +134,16 @@ def cell_ref(kind, p, carry, x):
   raise ValueError(kind)
 
 
-CELLS = {'lstm': nn.LSTMCell, 'olstm': nn.OptimizedLSTMCell, 'gru': nn.GRUCell, 'simple': nn.SimpleCell, 'mgu': nn.MGUCell}
+CELLS = {'lstm': nn.LSTMCell, 'olstm': nn.OptimizedLSTMCell, 'gru': nn.GRUCell, 'simple': nn.SimpleCell, 'mgu': nn.MGUCell,
+         'simple_res': lambda **kw: nn.SimpleCell(residual=True, **kw)}
 
 
 def real_rnn(c):
   """RNN(cell) against the manual loop of cell.apply and against the numpy recurrence; padding inert; NNX LSTM with copied parameters"""
   rng = np.random.RandomState(c['seed'])
   B, T, F, H = c['batch'], c['T'], c['features'], c['hidden']
+  if c['kind'] == 'simple_res':
+    F = H        # the residual connection adds the carry to the pre-activation
   x = jnp.asarray(rng.randn(*B, T, F))
   lens = jnp.asarray(np.array(c['lens'], dtype=np.int32)) if c['lens'] is not None else None
   kind = c['kind']
@@ -294,6 +297,20 @@ def decode(c):
   step = np.stack(outs, axis=1)
   res['dev_linen_decode'] = float(np.max(np.abs(step - whole)))
   res['cache_index'] = int(cache['cache_index'])
+  # the same with a key-padding mask given by the caller at every decode step: decode == whole-sequence under causal & padding
+  valid = np.ones((Bn, T), dtype=bool)
+  for b in range(Bn):
+    for t in range(1, T):
+      valid[b, t] = rng.rand() < 0.6          # position 0 stays valid: no query row is fully masked
+  pad = jnp.asarray(valid)[:, None, None, :]
+  whole_p = np.asarray(mha.apply(variables, x, mask=nn.combine_masks(causal, pad)))
+  cache = dec.init(jax.random.key(0), x)['cache']
+  outs = []
+  for t in range(T):
+    y, upd = dec.apply({'params': variables['params'], 'cache': cache}, x[:, t:t + 1], mask=pad, mutable=['cache'])
+    cache = upd['cache']
+    outs.append(np.asarray(y)[:, 0])
+  res['dev_linen_decode_padding'] = float(np.max(np.abs(np.stack(outs, axis=1) - whole_p)))
   # future positions cannot influence earlier outputs
   x2 = np.array(x)
   t0 = c['T'] // 2
